@@ -1,4 +1,17 @@
 # C03 — label references resolve to the bound position
+import os, json
+def _kf_open(kid):
+    # is the finding listed in known_findings.jsonl (and not taken out for a trial run by VERIF_KF_EXCLUDE)? While it is, the harnesses
+    # that live entirely inside its input region carry known=<id>; once it is gone they are ordinary harnesses that must pass.
+    if kid in os.environ.get('VERIF_KF_EXCLUDE', '').split(','): return False
+    try:
+        for ln in open(os.path.join(os.path.dirname(os.path.dirname(os.path.dirname(os.path.abspath(__file__)))), 'known_findings.jsonl')):
+            ln = ln.strip()
+            if ln.startswith('{') and json.loads(ln).get('id') == kid: return True
+    except OSError:
+        pass
+    return False
+C03B = 'C03b' if _kf_open('C03b') else None
 # loop ids of the two fixup-list walks (if the code changes shape the global bound applies again: slower, never unsound)
 UW_BIND = ','.join('_ZN6asmjit5v1_2110CodeHolder10bind_labelERKNS0_5LabelEjm.%d:5' % i for i in range(8))   # every back edge of the one do-while in bind_label
 UW_EXPR = '_ZN6asmjit5v1_21L30CodeHolder_evaluate_expressionEPNS0_10CodeHolderEPNS0_10ExpressionEPm:3'   # recursion depth of the expression evaluator
@@ -38,7 +51,7 @@ for f, what in X86_FORMS:
         uw = [UW_BIND] if m == 'later' else [UW_RES] if (m == 'xsect' and f != 'mov_abs32') else []
         if f == 'mov_abs32': uw += [UW_EXPR1]   # ends with relocate_to_base
         HARNESSES.append(Harness('x86ref', fn, unwind=33, bounds=what + '; disp32 all 2^32; ' + B_X86[m] + '; cursor at byte 8 of a 32-byte buffer', mem_gb=3, timeout=1800,
-                                 unwindset=','.join(uw) or None, flags=FS, known='C03b' if (m == 'xsect' and f != 'mov_abs32') else None, tiers=('quick', 'thorough') if fn in QUICK_X86 else ('thorough',)))
+                                 unwindset=','.join(uw) or None, flags=FS, known=C03B if (m == 'xsect' and f != 'mov_abs32') else None, tiers=('quick', 'thorough') if fn in QUICK_X86 else ('thorough',)))
 A64_FORMS = [('b', 'b label'), ('bl', 'bl label'), ('bcond', 'b.eq/ne/ge/lt label'), ('cbz', 'cbz x0-15, label'), ('tbz', 'tbz x0-15, bit 0-63, label'), ('adr', 'adr x0-15, label'), ('adrp', 'adrp x0-15, label'), ('ldr_lit', 'ldr x0-15, [label, disp32]')]
 B_A64 = {'bound': 'label already bound in this section at any position below 8 GiB', 'later': 'label unbound, bound afterwards at any position below 8 GiB (bind_label patches)', 'xsect': 'label bound in another section, section offsets below 2^40 (resolve_cross_section_fixups patches)'}
 QUICK_A64 = ('h_a64_b_later', 'h_a64_tbz_bound', 'h_a64_adrp_later', 'h_a64_ldr_lit_bound', 'h_a64_cbz_xsect')
@@ -47,7 +60,7 @@ for f, what in A64_FORMS:
         fn = 'h_a64_%s_%s' % (f, m)
         uw = [UW_BIND] if m == 'later' else [UW_RES] if m == 'xsect' else []
         HARNESSES.append(Harness('a64ref', fn, unwind=33, bounds=what + '; ' + B_A64[m] + '; cursor at byte 8 of a 32-byte buffer', mem_gb=3, timeout=1800,
-                                 unwindset=','.join(uw) or None, flags=FS, known='C03b' if m == 'xsect' else None, tiers=('quick', 'thorough') if fn in QUICK_A64 else ('thorough',)))
+                                 unwindset=','.join(uw) or None, flags=FS, known=C03B if m == 'xsect' else None, tiers=('quick', 'thorough') if fn in QUICK_A64 else ('thorough',)))
 EXPLANATION = 'bounded symbolic execution (CBMC) of the real CodeHolder::bind_label / resolve_cross_section_fixups / new_fixup / relocate_to_base, BaseAssembler::embed_label / embed_label_delta and the reference sites of x86::Assembler::_emit / a64::Assembler::_emit compiled from /repo; the oracle decodes the patched bytes the way the CPU does (reference decoders in the harness)'
 OUTSIDE = ['more than 3 pending fixups per label (the list code is uniform in the length)', 'more than 2 sections', 'buffer growth during emission (C15)', 'Thumb/A32 formats (no A32 assembler in this tree)',
            'label positions of 2 GiB and more in the x86 reference-site harnesses (jmp/jcc/call to a bound label compute rel32 modulo 2^32 without a range check; buffers of that size are outside the claim), 8 GiB in the a64 ones',
